@@ -90,11 +90,56 @@ class Obj:
 
 
 class FuncRef:
-    def __init__(self, module, fn, self_obj=None, owner=None):
+    def __init__(self, module, fn, self_obj=None, owner=None, closure=None, defaults=None, frame_self=None):
         self.module = module
         self.fn = fn
         self.self_obj = self_obj
         self.owner = owner
+        self.closure = closure          # scope of the enclosing function (lambda / nested def), by reference
+        self.defaults = defaults        # {parameter: value} evaluated when the def / lambda was executed
+        self.frame_self = frame_self    # `self` of the enclosing method (for super() inside a nested function)
+
+
+class Env(dict):
+    """local scope of a nested function / lambda, chained to the scope it was defined in (reads fall through to the
+    enclosing scope, writes stay local - Python's closure rules without ``nonlocal``)"""
+
+    def __init__(self, parent, local=None):
+        dict.__init__(self, local or {})
+        self.parent = parent
+
+    def __contains__(self, k):
+        return dict.__contains__(self, k) or k in self.parent
+
+    def __getitem__(self, k):
+        if dict.__contains__(self, k):
+            return dict.__getitem__(self, k)
+        return self.parent[k]
+
+    def get(self, k, d=None):
+        return self[k] if k in self else d
+
+    def keys(self):
+        return list(dict.keys(self)) + [k for k in self.parent.keys() if not dict.__contains__(self, k)]
+
+    def __iter__(self):
+        return iter(self.keys())
+
+    def items(self):
+        return [(k, self[k]) for k in self.keys()]
+
+    def values(self):
+        return [self[k] for k in self.keys()]
+
+    def __len__(self):
+        return len(self.keys())
+
+    def pop(self, k, *d):
+        if dict.__contains__(self, k):
+            return dict.pop(self, k)
+        if d:
+            return d[0]
+        raise KeyError(k)
 
 
 class DictV:
@@ -141,12 +186,45 @@ BUILTIN_EXC = {'RuntimeWarning', 'UserWarning', 'DeprecationWarning', 'Warning',
 VISITED = set()      # qualified names of every function of the analysed package that was interpreted in this process
 
 
+def numeric_table(module, node):
+    """a dict literal with string keys whose values are numeric constant expressions (numbers, arithmetic over
+    numbers and module constants such as Na)"""
+    if not node.keys or not all(isinstance(k, ast.Constant) and isinstance(k.value, str) for k in node.keys):
+        return False
+
+    def numeric(v):
+        if isinstance(v, ast.Constant):
+            return isinstance(v.value, (int, float)) and not isinstance(v.value, bool)
+        if isinstance(v, ast.BinOp):
+            return numeric(v.left) and numeric(v.right)
+        if isinstance(v, ast.UnaryOp):
+            return numeric(v.operand)
+        return isinstance(v, (ast.Name, ast.Attribute))
+    return all(numeric(v) for v in node.values)
+
+
+def unit_table(repo):
+    """(module, variable name, ast.Dict) of the table of conversion factors: the numeric dict literal that the
+    public ``pmutt.constants.convert_unit`` consults - found by following its code, wherever a refactoring keeps it"""
+    m = repo.module('pmutt.constants')
+    fn = m.functions.get('convert_unit')
+    if fn is None:
+        raise AnchorError('pmutt.constants.convert_unit not found')
+    cands = [(tm, nm, nd) for tm, nm, nd in repo.reached_tables(m, fn) if numeric_table(tm, nd)]
+    if not cands:
+        raise AnchorError('no table of conversion factors is reached from pmutt.constants.convert_unit')
+    # several numeric tables (e.g. prefixes): the conversion factors are the one with the energy and length units
+    cands.sort(key=lambda c_: -sum(1 for k in c_[2].keys if k.value in ('J', 'kJ', 'eV', 'm', 'cm', 'bar', 'Pa', 's')))
+    return cands[0]
+
+
 class Interp:
     def __init__(self, repo, domain=None, order=None, max_depth=32):
         self.repo = repo
         self.D = domain or nf.Domain()
         self.order = order            # callable(left Rat, op str, right Rat) -> bool|None
         self.max_depth = max_depth
+        self.global_vars = {}         # (module, name) -> value assigned through a ``global`` statement
         self.depth = 0
         self.stack = []               # ids of the FunctionDefs being inlined (recursion guard)
         self.warnings = []
@@ -155,6 +233,7 @@ class Interp:
         self.opaque_funcs = {}        # qualified function name -> handler(interp, args, kwargs)
         self.unit_one = None          # set of unit strings whose table factor is exactly 1
         self.table_atoms = None       # when a dict: numeric dict literals become atoms
+        self.table_names = {}         # id(ast.Dict) -> canonical table name used in atom names (rules set it)
         self.table_env = {}
         self._table_cache = {}
         self.integrals = {}
@@ -189,18 +268,12 @@ class Interp:
         fn = m.functions.get('convert_unit')
         if fn is None:
             raise AnchorError('pmutt.constants.convert_unit not found')
-        ud = None
-        for n in ast.walk(fn):
-            if isinstance(n, ast.Assign) and isinstance(n.targets[0], ast.Name) \
-                    and n.targets[0].id == 'unit_dict' and isinstance(n.value, ast.Dict):
-                ud = n.value
-        if ud is None:
-            raise AnchorError('unit_dict literal not found in convert_unit')
+        um, _uname, ud = unit_table(self.repo)
         self.unit_one = set()
         self.unit_pow10 = {}
         for k, v in zip(ud.keys, ud.values):
             try:
-                num = fold_num(m, v)
+                num = fold_num(um, v)
             except Unsupported:
                 continue
             if isinstance(k, ast.Constant) and isinstance(k.value, str):
@@ -229,7 +302,7 @@ class Interp:
         return out
 
     # ------------------------------------------------------------------
-    def _bind(self, module, fn, args, kwargs, self_obj, owner, name):
+    def _bind(self, module, fn, args, kwargs, self_obj, owner, name, preset=None):
         # the bound exists to stop runaway recursion only: extracting helpers makes call chains longer without
         # changing behaviour, so the limit is on re-entering the same function, with a generous overall ceiling
         if self.depth >= self.max_depth or self.stack.count(id(fn)) >= 6:
@@ -272,7 +345,9 @@ class Interp:
             env[vararg] = ListV([])
         for n_ in names:
             if n_ not in env:
-                if n_ in defaults:
+                if preset is not None and n_ in preset:
+                    env[n_] = preset[n_]
+                elif n_ in defaults:
                     dk = (id(fn), n_)
                     if dk not in self.default_cache:
                         self.default_cache[dk] = Frame(self, module, {}, owner, None).ev(defaults[n_])
@@ -281,10 +356,13 @@ class Interp:
                     raise _RaisedExc(Raised('TypeError', fn))
         return env
 
-    def call_function(self, module, fn, args, kwargs, self_obj=None, owner=None, name=None):
+    def call_function(self, module, fn, args, kwargs, self_obj=None, owner=None, name=None, closure=None,
+                      preset=None, frame_self=None):
         """inline a FunctionDef with evaluated args. Returns value or Raised."""
         try:
-            env = self._bind(module, fn, args, kwargs, self_obj, owner, name)
+            env = self._bind(module, fn, args, kwargs, self_obj, owner, name, preset)
+            if closure is not None:
+                env = Env(closure, env)
         except _RaisedExc as r:
             if self.depth > 0:
                 raise
@@ -294,7 +372,7 @@ class Interp:
         self.calls.append(name or fn.name)
         VISITED.add('%s.%s' % (owner.qual if owner is not None else module.name, fn.name))
         try:
-            fr = Frame(self, module, env, owner, self_obj)
+            fr = Frame(self, module, env, owner, self_obj if self_obj is not None else frame_self)
             is_gen = self._is_gen.get(id(fn))
             if is_gen is None:
                 is_gen = any(isinstance(x, (ast.Yield, ast.YieldFrom)) for x in ast.walk(fn))
@@ -444,6 +522,32 @@ class Interp:
                                    name=got[0].qual + '.__init__')
             if isinstance(r, Raised):
                 return r
+        elif any(d.split('(')[0].split('.')[-1] == 'dataclass' for k in ci.mro for d in k.decorators):
+            # the __init__ a dataclass generates: fields in definition order (bases first), defaults from the class
+            fields = []
+            for k in reversed(ci.mro):
+                for nm, dflt in k.ann_fields:
+                    fields = [f_ for f_ in fields if f_[0] != nm] + [(nm, dflt, k)]
+            if len(args) > len(fields):
+                return Raised('TypeError')
+            vals = dict(zip([f_[0] for f_ in fields], args))
+            for k_, v_ in kwargs.items():
+                if k_ in vals or k_ not in [f_[0] for f_ in fields]:
+                    return Raised('TypeError')
+                vals[k_] = v_
+            for nm, dflt, k in fields:
+                if nm not in vals:
+                    if dflt is None:
+                        return Raised('TypeError')
+                    if isinstance(dflt, ast.Call) and ast.unparse(dflt.func).split('.')[-1] == 'field':
+                        raise Unsupported('dataclass field(...) default', dflt, k.module.relpath)
+                    vals[nm] = Frame(self, k.module, {}, k, None).ev(dflt)
+                o.attrs[nm] = vals[nm]
+            post = self.repo.find_method(ci, '__post_init__', missing_ok=True)
+            if post:
+                self.call_function(post[0].module, post[1], [], {}, self_obj=o, owner=post[0])
+        elif args or kwargs:
+            return Raised('TypeError')      # object() takes no arguments
         return o
 
     def call_method(self, obj, mname, args, kwargs, after=None):
@@ -784,6 +888,7 @@ class Frame:
         self.owner = owner
         self.self_obj = self_obj
         self.in_vec_loop = 0
+        self.global_names = set()       # names declared ``global`` in this function
 
     # ---- statements ----------------------------------------------------
     def exec_block(self, stmts):
@@ -865,6 +970,30 @@ class Frame:
             return
         if isinstance(st, ast.Assert):
             return
+        if isinstance(st, ast.AnnAssign):
+            if st.value is not None:
+                self.assign(st.target, self.ev(st.value))
+            return
+        if isinstance(st, (ast.FunctionDef,)):
+            # nested function: a closure over this frame's scope; defaults are evaluated now
+            self.env[st.name] = FuncRef(self.module, st, None, self.owner, closure=self.env,
+                                        defaults=self.def_defaults(st), frame_self=self.self_obj)
+            return
+        if isinstance(st, ast.Global):
+            self.global_names.update(st.names)
+            return
+        if isinstance(st, ast.Nonlocal):
+            raise Unsupported('nonlocal', st, self.module.relpath)
+        if isinstance(st, ast.While):
+            self.exec_while(st)
+            return
+        if isinstance(st, ast.Delete):
+            for t in st.targets:
+                self.delete(t)
+            return
+        if hasattr(ast, 'Match') and isinstance(st, ast.Match):
+            self.exec_match(st)
+            return
         if isinstance(st, ast.ImportFrom) and st.module and not st.level:
             for a in st.names:
                 base = I.repo.modules.get(st.module)
@@ -880,10 +1009,100 @@ class Frame:
             return
         raise Unsupported('statement %s' % type(st).__name__, st, self.module.relpath)
 
+    def def_defaults(self, fn):
+        """{parameter: value} of the defaults of a lambda / nested def, evaluated in the defining scope"""
+        a = fn.args
+        out = {}
+        pos = a.posonlyargs + a.args
+        for x, d in zip(pos[len(pos) - len(a.defaults):], a.defaults):
+            out[x.arg] = self.ev(d)
+        for x, d in zip(a.kwonlyargs, a.kw_defaults):
+            if d is not None:
+                out[x.arg] = self.ev(d)
+        return out
+
+    def exec_while(self, st):
+        """a while loop whose condition is decided on every round (bounded: an undecided or runaway condition is
+        outside the accepted fragment, never guessed)"""
+        rounds = 0
+        broke = False
+        while True:
+            if not self.I.truth(self.ev(st.test), st):
+                break
+            rounds += 1
+            if rounds > 512:
+                raise Unsupported('while loop does not terminate within 512 rounds', st, self.module.relpath)
+            try:
+                self.exec_block(st.body)
+            except _Break:
+                broke = True
+                break
+            except _Continue:
+                continue
+        if not broke and st.orelse:
+            self.exec_block(st.orelse)
+
+    def delete(self, t):
+        if isinstance(t, ast.Name):
+            if t.id in self.global_names:
+                self.I.global_vars.pop((self.module.name, t.id), None)
+            elif dict.__contains__(self.env, t.id):
+                dict.pop(self.env, t.id)
+            else:
+                raise _RaisedExc(Raised('NameError', t))
+            return
+        if isinstance(t, ast.Attribute):
+            base = self.ev(t.value)
+            if isinstance(base, Obj):
+                if t.attr in base.attrs:
+                    del base.attrs[t.attr]
+                    return
+                raise _RaisedExc(Raised('AttributeError', t))
+        if isinstance(t, ast.Subscript):
+            base = self.ev(t.value)
+            if isinstance(base, DictV):
+                k = base.nkey(self.ev(t.slice))
+                if k not in base.d:
+                    raise _RaisedExc(Raised('KeyError', t))
+                del base.d[k]
+                return
+            if isinstance(base, ListV) and not isinstance(t.slice, ast.Slice):
+                i = self.index(self.ev(t.slice), len(base.items), t)
+                del base.items[i]
+                return
+        raise Unsupported('del %s' % ast.unparse(t), t, self.module.relpath)
+
+    def exec_match(self, st):
+        subj = self.ev(st.subject)
+
+        def literal(p):
+            v = self.ev(p.value)
+            return self.I.compare('==', subj, v, p)
+
+        def matches(p):
+            if isinstance(p, ast.MatchValue):
+                return literal(p)
+            if isinstance(p, ast.MatchSingleton):
+                return subj is p.value
+            if isinstance(p, ast.MatchOr):
+                return any(matches(q) for q in p.patterns)
+            if isinstance(p, ast.MatchAs):
+                if p.pattern is not None and not matches(p.pattern):
+                    return False
+                if p.name is not None:
+                    self.env[p.name] = subj
+                return True
+            raise Unsupported('match pattern %s' % type(p).__name__, p, self.module.relpath)
+        for case in st.cases:
+            if matches(case.pattern) and (case.guard is None or self.I.truth(self.ev(case.guard), case)):
+                self.exec_block(case.body)
+                return
+
     def table_dict(self, name, node):
         """dict literal of numeric constants -> DictV of atoms ``name[key]``;
         the folded Num of every entry is recorded in interp.table_atoms."""
         I = self.I
+        name = I.table_names.get(id(node), name)
         cached = I._table_cache.get(id(node))
         if cached is not None:
             return DictV(dict(cached))
@@ -989,8 +1208,9 @@ class Frame:
     def assign(self, target, v):
         I = self.I
         if isinstance(target, ast.Name):
-            if self.in_vec_loop and isinstance(v, (Rat,)) :
-                pass
+            if target.id in self.global_names:
+                I.global_vars[(self.module.name, target.id)] = v
+                return
             self.env[target.id] = v
             return
         if isinstance(target, (ast.Tuple, ast.List)):
@@ -1092,8 +1312,10 @@ class Frame:
                 return C(token_num(tok).v)
             raise Unsupported('constant %r' % (v,), n, self.module.relpath)
         if isinstance(n, ast.Name):
-            if n.id in self.env:
+            if n.id in self.env and n.id not in self.global_names:
                 return self.env[n.id]
+            if I.global_vars and (self.module.name, n.id) in I.global_vars:
+                return I.global_vars[(self.module.name, n.id)]     # rebound through a ``global`` statement
             return self.global_name(n)
         if isinstance(n, ast.BinOp):
             if type(n.op) not in _OPS:
@@ -1221,6 +1443,21 @@ class Frame:
                 s_ = ListV(list(dict.fromkeys(I.plain(x) for x in r_.items)))
                 s_.is_set = True
                 return s_
+            if isinstance(r_, ListV) and all(isinstance(x, Rat) for x in r_.items):
+                keep = []
+                for x in r_.items:
+                    dup = False
+                    for y in keep:
+                        d_ = x - y
+                        if d_.iszero():
+                            dup = True
+                        elif not d_.is_const():
+                            raise Unsupported('set of symbolic numbers (equality undecided)', n, self.module.relpath)
+                    if not dup:
+                        keep.append(x)
+                s_ = ListV(keep)
+                s_.is_set = True
+                return s_
             raise Unsupported('set comprehension of non-string items', n, self.module.relpath)
         if isinstance(n, ast.Subscript):
             return self.subscript(n)
@@ -1254,7 +1491,8 @@ class Frame:
                     out = out + '<formatted>'
             return I.plain(out)
         if isinstance(n, ast.Lambda):
-            return FuncRef(self.module, n, None, self.owner)
+            return FuncRef(self.module, n, None, self.owner, closure=self.env, defaults=self.def_defaults(n),
+                           frame_self=self.self_obj)
         if isinstance(n, ast.Slice):
             return SliceV(n.lower is None and n.upper is None and n.step is None)
         if isinstance(n, ast.Yield):
@@ -1513,6 +1751,13 @@ class Frame:
                     return I.call_function(owner.module, fn, [], {}, self_obj=obj, owner=owner,
                                            name='%s.%s' % (owner.qual, attr))
                 return FuncRef(owner.module, fn, obj, owner)
+            # attribute defined in a class body (a constant, a table, a namedtuple type): read through the instance
+            for k in obj.ci.mro:
+                if attr in k.class_attrs:
+                    key = (k.qual, attr)
+                    if key not in I.module_globals:
+                        I.module_globals[key] = Frame(I, k.module, {}, k, None).ev(k.class_attrs[attr])
+                    return I.module_globals[key]
         if attr in obj.opaque_methods:
             return BoundOpaque(obj, attr)
         if attr == '__class__':
@@ -1560,6 +1805,9 @@ class Frame:
             return FuncRef(r[1].module, r[2], None, r[1])
         if isinstance(r, tuple) and r[0] == 'value':
             m, node = r[1], r[2]
+            if self.I.table_atoms is not None and isinstance(node, ast.Dict) and id(node) in self.I.table_names:
+                # a table the rule keeps symbolic, stored at module level
+                return Frame(self.I, m, {}, None, None).table_dict(self.I.table_names[id(node)], node)
             if isinstance(node, (ast.Dict, ast.List)) and (
                     isinstance(node, ast.List) or len(node.keys) <= 3):
                 # small module-level container: mutable global state shared by every call in this run
@@ -1649,12 +1897,39 @@ class Frame:
         I = self.I
         if isinstance(fv, FuncRef):
             if isinstance(fv.fn, ast.Lambda):
-                names = [a.arg for a in fv.fn.args.args]
-                env = dict(self.env)
+                a_ = fv.fn.args
+                names = [x.arg for x in a_.posonlyargs + a_.args]
+                env = Env(fv.closure if fv.closure is not None else self.env)
+                if len(args) > len(names) and not a_.vararg:
+                    raise _RaisedExc(Raised('TypeError', n))
                 for k, v in zip(names, args):
                     env[k] = v
-                env.update(kwargs)
-                return Frame(I, fv.module, env, fv.owner, self.self_obj).ev(fv.fn.body)
+                if a_.vararg:
+                    env[a_.vararg.arg] = ListV(list(args[len(names):]))
+                allowed = set(names) | {x.arg for x in a_.kwonlyargs}
+                extra = {}
+                for k, v in kwargs.items():
+                    if k in allowed:
+                        env[k] = v
+                    elif a_.kwarg:
+                        extra[k] = v
+                    else:
+                        raise _RaisedExc(Raised('TypeError', n))
+                if a_.kwarg:
+                    env[a_.kwarg.arg] = DictV(extra)
+                for k in allowed:
+                    if not dict.__contains__(env, k):
+                        if fv.defaults and k in fv.defaults:
+                            env[k] = fv.defaults[k]
+                        else:
+                            raise _RaisedExc(Raised('TypeError', n))
+                return Frame(I, fv.module, env, fv.owner,
+                             fv.frame_self if fv.frame_self is not None else self.self_obj).ev(fv.fn.body)
+            if fv.closure is not None:
+                # nested def: its own locals, reads fall through to the enclosing function's scope
+                return I.call_function(fv.module, fv.fn, args, kwargs, self_obj=None, owner=fv.owner,
+                                       name='%s.<locals>.%s' % (fv.module.name, fv.fn.name), closure=fv.closure,
+                                       preset=fv.defaults, frame_self=fv.frame_self)
             qual = (fv.owner.qual + '.' if fv.owner else fv.module.name + '.') + fv.fn.name
             if qual in I.opaque_funcs:
                 return I.opaque_funcs[qual](I, self, args, kwargs, n)
@@ -1720,14 +1995,35 @@ class TableRef:
         for nm, vals in self.module.assigns.items():
             if vals and vals[-1] is self.node:
                 nodes = list(reversed(self.module.updates.get(nm, []))) + nodes
+        def plain(v):
+            # a hashable Python value for a concrete key (tuples of constants included), else None
+            if isinstance(v, (str, bool, int, float)) or v is None:
+                return ('k', v)
+            if isinstance(v, Rat) and (v.is_const() or v.iszero()):
+                cv = v.const_value() if not v.iszero() else Fr(0)
+                return ('k', int(cv) if cv.denominator == 1 else float(cv))
+            if isinstance(v, ListV) and not getattr(v, 'is_array', False):
+                parts = [plain(x) for x in v.items]
+                return None if any(p_ is None for p_ in parts) else ('t', tuple(parts))
+            return None
+
+        def const_key(k):
+            if isinstance(k, ast.Constant):
+                return ('k', k.value)
+            if isinstance(k, ast.Tuple):
+                parts = [const_key(x) for x in k.elts]
+                return None if any(p_ is None for p_ in parts) else ('t', tuple(parts))
+            return None
+        want = plain(idx)
         for node in nodes:
             hit = None
             for k, v in zip(node.keys, node.values):
-                if isinstance(k, ast.Constant) and k.value == idx:
+                if want is not None and k is not None and const_key(k) == want:
                     hit = v          # later duplicate keys win
             if hit is not None:
                 return Frame(frame.I, self.module, {}, None, None).ev(hit)
-        if isinstance(idx, str):
+        if isinstance(idx, str) or (
+                want is not None and all(k is not None and const_key(k) is not None for node in nodes for k in node.keys)):
             raise _RaisedExc(Raised('KeyError', n))
         raise Unsupported('symbolic key into table', n, frame.module.relpath)
 
@@ -1962,6 +2258,8 @@ def builtin_call(I, fr, name, args, kwargs, n):
             return ListV(list(v.items))
         if isinstance(v, Elem):
             return v
+        if isinstance(v, ZipV) and v.vector:
+            return Elem(v.generic())        # vectors of unknown (equal) length zipped: a vector of tuples
         if isinstance(v, ZipV):
             return ListV(v.items())
         if isinstance(v, DictV):
@@ -1992,6 +2290,10 @@ def builtin_call(I, fr, name, args, kwargs, n):
                 res = res or isinstance(v, DictV)
             elif tn in ('list', 'tuple'):
                 res = res or (isinstance(v, ListV) and not getattr(v, 'is_array', False))
+            elif tn == 'ndarray':
+                if isinstance(v, Elem):
+                    raise Unsupported('isinstance(np.ndarray) of a vector that may be a list or an array', n)
+                res = res or (isinstance(v, ListV) and bool(getattr(v, 'is_array', False)))
             elif tn in ('float', 'int'):
                 res = res or isinstance(v, Rat)
             elif tn == 'Number':
@@ -2607,6 +2909,16 @@ def _np_unary(fname):
             return I.unary_fn(lambda r: (D.exp(r) - D.exp(-r)) / C(2), v)
         if fname == 'cosh':
             return I.unary_fn(lambda r: (D.exp(r) + D.exp(-r)) / C(2), v)
+        if fname == 'abs':
+            def ab(r):
+                if r.is_const() or r.iszero():
+                    return C(abs(r.const_value())) if not r.iszero() else r
+                if I.order is not None:
+                    pos = I.order(r, '>=', C(0))
+                    if pos is not None:
+                        return r if pos else -r
+                raise Unsupported('absolute value of a symbolic number of unknown sign', n)
+            return I.unary_fn(ab, v)
         if fname == 'tanh':
             return I.unary_fn(lambda r: (D.exp(r) - D.exp(-r)) / (D.exp(r) + D.exp(-r)), v)
         raise Unsupported(fname, n)
@@ -3385,6 +3697,7 @@ NATIVE = {
     'numpy.log': _np_unary('log'),
     'numpy.exp': _np_unary('exp'),
     'numpy.sqrt': _np_unary('sqrt'),
+    'numpy.abs': _np_unary('abs'), 'numpy.absolute': _np_unary('abs'), 'numpy.fabs': _np_unary('abs'),
     'numpy.sinh': _np_unary('sinh'),
     'numpy.cosh': _np_unary('cosh'),
     'numpy.tanh': _np_unary('tanh'),
@@ -3420,6 +3733,11 @@ NATIVE = {
     'numpy.max': _np_minmax('max'),
     'numpy.concatenate': _np_concatenate,
     'warnings.warn': _warn,
+    'warnings.catch_warnings': lambda I, fr, args, kwargs, n: None,
+    'warnings.simplefilter': lambda I, fr, args, kwargs, n: None,
+    'warnings.filterwarnings': lambda I, fr, args, kwargs, n: None,
+    'numpy.errstate': lambda I, fr, args, kwargs, n: None,
+    'contextlib.nullcontext': lambda I, fr, args, kwargs, n: (args[0] if args else None),
     'pmutt.constants.R': _c_R,
     'pmutt.constants.kb': _c_kb,
     'pmutt.constants.h': _c_h,
@@ -3459,6 +3777,9 @@ GLOBAL_ATTRS = {
     'numpy.pi': lambda I: I.D.sym('pi'),
     'numpy.inf': lambda I: I.D.sym('INF'),
     'numpy.double': lambda I: 'np.double',
+    'numpy.integer': lambda I: Builtin('int'), 'numpy.floating': lambda I: Builtin('float'),
+    'numpy.number': lambda I: Builtin('Number'), 'numpy.generic': lambda I: Builtin('Number'),
+    'numpy.ndarray': lambda I: Builtin('ndarray'),
     'numpy.float64': lambda I: 'np.float64',
     'numpy.float_': lambda I: 'np.float_',
     'numpy.int64': lambda I: 'np.int64',
